@@ -36,8 +36,11 @@ func classify(t *otree, f failure) string {
 		return "dangling-hardlink-ghost"
 	case t.flags.lexMismatch && (f.kind == "follow" || f.kind == "alias"):
 		return "link-lexical"
-	case t.flags.lexMismatch && t.flags.throughLink && (f.kind == "walk" || f.kind == "readdir" || f.kind == "sub" || f.kind == "stat" || f.kind == "read"):
-		// A member was placed through the link that means something else lexically.
+	case t.flags.lexMismatch && t.flags.throughLink && (f.kind == "walk" || f.kind == "readdir" || f.kind == "sub" || f.kind == "stat" || f.kind == "read" || f.kind == "reject"):
+		// A member was placed through the link that means something else
+		// lexically (it lands in another directory than in an extraction; when
+		// that makes a second child of one name there, New may even fail on
+		// the next member that walks past it).
 		return "link-lexical"
 	case f.kind == "testfs-sub-link":
 		return "sub-links"
